@@ -175,6 +175,8 @@ pub enum Op {
     Pause(bool),
     Inject(InjectMode),
     React(u64, u64, LifeOp),
+    /// `reactev <frame> <e> <a> <kind> <op>`: issued when the observer first sees that event in that frame.
+    ReactEv(u64, u32, usize, String, LifeOp),
     Post(LifeOp),
     Frame,
 }
@@ -399,6 +401,18 @@ fn parse_op(t: &[&str]) -> Option<Op> {
         ["inject", "events"] => Op::Inject(InjectMode::Events),
         ["inject", "first"] => Op::Inject(InjectMode::First),
         ["react", f, k, rest @ ..] => Op::React(parse_uint(f)?, parse_uint(k)?, parse_life(rest)?),
+        ["reactev", f, e, a, kind, rest @ ..] => {
+            if !["started", "ongoing", "fired", "canceled", "completed"].contains(kind) {
+                return None;
+            }
+            Op::ReactEv(
+                parse_uint(f)?,
+                handle(e)?,
+                parse_idx(a, MAX_ACT)?,
+                kind.to_string(),
+                parse_life(rest)?,
+            )
+        }
         ["post", rest @ ..] => Op::Post(parse_life(rest)?),
         ["frame"] => Op::Frame,
         _ => return None,
